@@ -87,6 +87,17 @@ def call_stmt(ex, e, st):
         return cut(ex, e, st)
     if isinstance(f, ast.Name) and f.id in ("stash", "unstash"):
         return stash(ex, e, st, f.id)
+    if isinstance(f, ast.Name) and f.id == "mark":
+        # ghost: mark(t) makes the facts whose trigger is here(.) available at t.  here is an otherwise unconstrained predicate, so
+        # assuming it for chosen terms is conservative; it only steers quantifier instantiation.
+        for a in e.args:
+            ex.quiet += 1
+            try:
+                v = toint(ex.ev(a, st.clone()))
+            finally:
+                ex.quiet -= 1
+            st.assume(speclang.HERE(v))
+        return
     call(ex, e, st)
 
 
@@ -194,10 +205,12 @@ def dec_str(ex, st, x, line):
     sv = make_solver(1500)
     sv.add(*ex._query(st, [z3.Not(z3.And(x >= 0, x <= 9))]))
     if sv.check() == z3.unsat:
+        out1.intval = x            # the integer whose decimal rendering this one-character string is
         return out1
     ex.prove(st, f"str-of-nonnegative-int:{ex.ordinal('str')}", x >= 0, line)
     st.assume(x >= 0)
     out = fresh_seq("decstr", "str", "char")
+    out.intval = x
     st.assume(z3.And(out.n >= 1, specz3.seq_digits(out), z3.Or(out.n == 1, specz3.digit_of(out, 0) != 0),
                      specz3.seq_pv(out, iv(0), out.n, 10) == x))
     return out
@@ -352,13 +365,18 @@ def method(ex, e, st):
                 look = z3.If(c == ord(txt[j]), iv(j), look)
             return look
         n = lit(base.n)
+        if n is None and getattr(base, "maxlen", None) is not None:
+            n = base.maxlen
+            inr = [j < base.n for j in range(n)]
+        elif n is not None:
+            inr = [z3.BoolVal(True)] * n
         if n is not None and n <= 8:
             v = x.at(0) if isinstance(x, Seq) else toint(x)
-            ex.may_raise(st, "ValueError", z3.Not(z3.Or(*[base.at(j) == v for j in range(n)])) if n else z3.BoolVal(True),
+            ex.may_raise(st, "ValueError", z3.Not(z3.Or(*[z3.And(inr[j], base.at(j) == v) for j in range(n)])) if n else z3.BoolVal(True),
                          f"list-index-miss:{ex.ordinal('lidx')}", e.lineno)
             look = iv(n - 1)
             for j in range(n - 2, -1, -1):
-                look = z3.If(base.at(j) == v, iv(j), look)
+                look = z3.If(z3.And(inr[j], base.at(j) == v), iv(j), look)
             return look
         raise U("index on a symbolic-length sequence")
     if attr == "count" and isinstance(base, Seq):
@@ -389,10 +407,19 @@ def call_contract(ex, e, st, name, c):
                 raise U(f"call of {name}: missing argument {p}")
             args[p] = ex.ev(defaults[p], st)
     if c.get("dispatch"):
-        key = static_key(args, c["dispatch"]["param"])
-        if key not in c["dispatch"]:
-            raise U(f"call of {name}: cannot select a contract variant statically ({c['dispatch']['param']} is {key})")
-        c = ex.registry.contracts[c["dispatch"][key]]
+        d = c["dispatch"]
+        if "params" in d:
+            key = "|".join(static_key(args, p_) for p_ in d["params"])
+            table = d["table"]
+        else:
+            key, table = static_key(args, d["param"]), d
+        if key not in table:
+            raise U(f"call of {name}: cannot select a contract variant statically (key {key})")
+        c = ex.registry.contracts[table[key]]
+    for g in c.get("ghost_params", {}):            # spec-only inputs: the caller supplies them under the same name
+        if g not in st.env:
+            raise U(f"call of {name}: the caller has no ghost value `{g}` to pass for the callee's ghost input")
+        args[g] = st.env[g]
     return apply_contract(ex, st, name, c, args, e.lineno)
 
 
@@ -429,6 +456,10 @@ def apply_contract(ex, st, name, c, args, line):
         res = shapes.fresh_of(ex, st, ret, f"{name}_res")
         t.env["result"] = res
         t.pc = st.pc
+        for g, shape in c.get("ghost_returns", {}).items():       # existential witnesses of the callee's postcondition
+            t.env[g] = shapes.fresh_of(ex, st, shape, f"{name}_{g}")
+            st.env[f"{name}_{g}"] = t.env[g]
+            ex.ghost_names.add(f"{name}_{g}")
         for label, txt in c.get("ensures", {}).items():
             ex.quiet += 1
             try:
@@ -484,7 +515,7 @@ def static_key(args, key):
         s = z3.simplify(v)
         return "true" if z3.is_true(s) else ("false" if z3.is_false(s) else "symbolic")
     if z3.is_expr(v) and z3.is_int(v):
-        return "int"
+        return "zero" if lit(v) == 0 else "int"
     return type(v).__name__
 
 
